@@ -100,11 +100,11 @@ Proof.
   - eexists. split; reflexivity.
 Qed.
 
-Lemma exec_for_i setf f e a b g args :
-  exec setf (S f) e (SFor [SDefine ["i"] [a]] [EBin "<" (EId "i") b] [SIncDec (EId "i") true] [SExpr (ECall g args)]) =
+Lemma exec_for_i setf f e a y g args :
+  exec setf (S f) e (SFor [SDefine ["i"] [a]] [EBin "<" (EId "i") (EId y)] [SIncDec (EId "i") true] [SExpr (ECall g args)]) =
   match eval setf (S f) e a with
   | EV e1 (VZ lo) =>
-      match eval setf (S f) e1 b with
+      match eval setf (S f) e1 (EId y) with
       | EV e2 (VZ hi) =>
           count_loop (fun e' => scoped_exec (exec setf f) e' [SExpr (ECall g args)]) "i" e2
             (map (fun k => lo + Z.of_nat k) (seq 0 (Z.to_nat (hi - lo))))
